@@ -402,6 +402,18 @@ func c15(r *core.Run) {
 						}
 					}
 				}
+				if !ok {
+					// a channel created in the ranging function itself and published through a field
+					for _, b := range cal.Blocks {
+						for _, in := range b.Instrs {
+							if st, isSt := in.(*ssa.Store); isSt && st.Val == ch {
+								if f, isF := core.FieldOf(st.Addr); isF {
+									fld, ok = f, true
+								}
+							}
+						}
+					}
+				}
 				kind := "call"
 				if core.IsGo(c) {
 					kind = "go"
